@@ -323,3 +323,73 @@ func lastIndexVal(a, b []value) value {
 	}
 	return mkVal(tInt, r)
 }
+
+// ---- math/rand over an arbitrary Source: the rejection-sampling loops are cut by assuming the first sample is accepted ----
+
+func randMethod(fr *frame, recv value, name string) value {
+	rt := fr.i.prog.ImportedPackage("math/rand").Type("Rand").Type()
+	ptr := types.NewPointer(rt)
+	sel := fr.i.prog.MethodSets.MethodSet(ptr).Lookup(fr.i.prog.ImportedPackage("math/rand").Pkg, name)
+	fn := fr.i.prog.MethodValue(sel)
+	return call(fr.i, fr, 0, fn, []value{recv})
+}
+
+func init() {
+	externals["(*crypto/rand.reader).Read"] = func(fr *frame, args []value) value {
+		b := args[1].([]value)
+		if fr.i.ex == nil {
+			for i := range b {
+				b[i] = uint8(0x41 + i%7)
+			}
+		} else {
+			copy(b, fr.i.ex.FreshCat("rnd", len(b)))
+		}
+		return tuple{len(b), iface{}}
+	}
+	int31n := func(fr *frame, recv value, nv value) value {
+		n := asInt64(nv)
+		if n <= 0 {
+			panic(targetPanic{iface{types.Typ[types.String], "invalid argument to Int31n"}})
+		}
+		v := randMethod(fr, recv, "Int31")
+		if n&(n-1) == 0 {
+			if s, ok := v.(sym); ok {
+				return mkVal(types.Typ[types.Int32], s.t.C.Bin(smt.OpAnd, s.t, s.t.C.Const(uint64(n-1), 32)))
+			}
+			return v.(int32) & int32(n-1)
+		}
+		max := int32((1 << 31) - 1 - (1<<31)%uint32(n))
+		if s, ok := v.(sym); ok {
+			c := s.t.C
+			exOf(s.t).Assume(c.Cmp(smt.OpSLe, s.t, c.Const(uint64(uint32(max)), 32)))
+			return mkVal(types.Typ[types.Int32], c.Bin(smt.OpSRem, s.t, c.Const(uint64(n), 32)))
+		}
+		return v.(int32) % int32(n)
+	}
+	int63n := func(fr *frame, recv value, nv value) value {
+		n := asInt64(nv)
+		if n <= 0 {
+			panic(targetPanic{iface{types.Typ[types.String], "invalid argument to Int63n"}})
+		}
+		v := randMethod(fr, recv, "Int63")
+		max := int64((1 << 63) - 1 - (1<<63)%uint64(n))
+		if s, ok := v.(sym); ok {
+			c := s.t.C
+			exOf(s.t).Assume(c.Cmp(smt.OpSLe, s.t, c.Const(uint64(max), 64)))
+			return mkVal(types.Typ[types.Int64], c.Bin(smt.OpSRem, s.t, c.Const(uint64(n), 64)))
+		}
+		return v.(int64) % n
+	}
+	externals["(*math/rand.Rand).Int31n"] = func(fr *frame, args []value) value { return int31n(fr, args[0], args[1]) }
+	externals["(*math/rand.Rand).Int63n"] = func(fr *frame, args []value) value { return int63n(fr, args[0], args[1]) }
+	externals["(*math/rand.Rand).Intn"] = func(fr *frame, args []value) value {
+		n := asInt64(args[1])
+		if n <= 0 {
+			panic(targetPanic{iface{types.Typ[types.String], "invalid argument to Intn"}})
+		}
+		if n <= 1<<31-1 {
+			return convSym(types.Typ[types.Int], types.Typ[types.Int32], int31n(fr, args[0], int32(n)))
+		}
+		return convSym(types.Typ[types.Int], types.Typ[types.Int64], int63n(fr, args[0], n))
+	}
+}
